@@ -283,6 +283,8 @@ class PSBT:
                 for sec, sig in psbt_in.sigs.items():
                     point = S256Point.parse(sec)
                     signature = Signature.parse(sig[:-1])
+                    # the last byte says which sighash the signature commits to
+                    hash_type = sig[-1]
                     if psbt_in.prev_out:
                         # segwit
                         if not self.tx_obj.check_sig_segwit(
@@ -291,6 +293,7 @@ class PSBT:
                             signature,
                             psbt_in.redeem_script,
                             psbt_in.witness_script,
+                            hash_type=hash_type,
                         ):
                             raise ValueError(
                                 "segwit signature provided does not validate"
@@ -298,7 +301,7 @@ class PSBT:
                     elif psbt_in.prev_tx:
                         # legacy
                         if not self.tx_obj.check_sig_legacy(
-                            i, point, signature, psbt_in.redeem_script
+                            i, point, signature, psbt_in.redeem_script, hash_type
                         ):
                             raise ValueError(
                                 f"legacy signature provided does not validate {self}"
